@@ -2,6 +2,10 @@ NOTE_COMMON = ("trusts gqlparser v2.5.1 (also used by pebbles), the harness's se
                "the Go runtime and race detector; absence of violations is a statement about the explored cases only")
 
 CHECKS = [
+    {"property_id": "C06", "category": "exploration", "design_ref": "DESIGN.md §5 C06",
+     "technique": "property-based testing (rapid): generated mutation operations with configuration and fault dimensions; counting oracle over the requests fake services receive",
+     "text": "generated mutation operations (several root fields, children crossing services) are executed 1..3 times on a gateway with plain or caching planner, max batch size 1/2/3000, optional id hint and an optional failing sibling or child call; from the fakes' logs the oracle counts, per client request, how often each selected mutation root field was received: exactly once, as a mutation, at its owning service only; all other requests must be queries",
+     "level_note": NOTE_COMMON + "; generation avoids the feature classes of open C01 findings"},
     {"property_id": "C10", "category": "exploration", "design_ref": "DESIGN.md §5 C10",
      "technique": "property-based testing (rapid): single invalidating edits of generated valid operations (metamorphic) and generated downstream error payloads",
      "text": "(a) a generated valid operation that provably causes downstream requests receives one invalidating edit of 17 kinds; after confirming invalidity on the union schema the gateway must answer alone: no request at any fake service, errors non-empty, data null. (b) one sub-request of a valid operation is answered with a generated GraphQL errors payload; each payload error must appear in the client's errors with message, extensions and path preserved",
@@ -44,7 +48,7 @@ CHECKS = [
      "level_note": NOTE_COMMON + "; schedule control limited to callbacks and the 9 verif hook points"},
 ]
 
-_PENDING = ["C06","C08","C12","C13","C14","C15","C16","C17","C18","C19"]
+_PENDING = ["C08","C12","C13","C14","C15","C16","C17","C18","C19"]
 NOT_APPLICABLE = [{"property_id": p, "reason": "check not built yet (work in progress; the technique applies, see DESIGN.md §5)"} for p in _PENDING]
 
 NOTES = "All checks are property-based tests / fuzz targets in /verif/harness (Go, rapid v1.3.0) run by /verif/check; see DESIGN.md."
